@@ -127,7 +127,7 @@ Lemma callback_order_example :
   match result_of (analyse_x true sysA mark_z_dep_y) with
   | Some r =>
       acyclic_by r (fun p => p) /\ NoDup (all_pos r) /\
-      b_vars (method_bodies r) = [SEq 1; SEq 2] /\
+      b_vars (method_bodies r sibling_fix) = [SEq 1; SEq 2] /\
       option_map ae_type (find_aeq r 2) = Some QExternal /\ option_map ae_deps (find_aeq r 2) = Some [1] /\
       option_map ae_type (find_aeq r 1) = Some QAlgebraic
   | None => False
@@ -141,7 +141,7 @@ Qed.
     algebraic equation) is emitted nowhere in that method, which is the first to run: known finding
     C20-initialise-callback-before-dependencies *)
 Definition init_uncomputed_dependency (r : result) : bool :=
-  let body := eq_positions (b_init (method_bodies r)) in
+  let body := eq_positions (b_init (method_bodies r sibling_fix)) in
   existsb (fun x => match find_aeq r x with
                     | Some e => qtype_eqb (ae_type e) QExternal
                                 && existsb (fun d => match find_aeq r d with
@@ -167,9 +167,9 @@ Lemma cyclic_refuted :
   match result_of (analyse_x true sysC mark_cyclic) with
   | Some r =>
       valid_type (r_type r) = true /\
-      b_vars (method_bodies r) = [SEq 1; SEq 0] /\
+      b_vars (method_bodies r sibling_fix) = [SEq 1; SEq 0] /\
       option_map ae_type (find_aeq r 1) = Some QExternal /\ option_map ae_deps (find_aeq r 1) = Some [0] /\
-      ordered_from r false [] (all_pos r) [] (eq_positions (b_vars (method_bodies r))) = false /\
+      ordered_from r false [] (all_pos r) [] (eq_positions (b_vars (method_bodies r sibling_fix))) = false /\
       forall rank, ~ acyclic_by r rank
   | None => False
   end.
@@ -204,5 +204,37 @@ Lemma independent_example :
       definition_of sysI r0 1 = Some (ACompConst, [(Some 1002, QVarBasedConst)]) /\
       definition_of sysI r1 1 = Some (AAlgebraic, [(Some 1002, QAlgebraic)])
   | _, _ => False
+  end.
+Proof. vm_compute. repeat split; reflexivity. Qed.
+
+(* ------------------------------------------------------------------ dependencies of NLA siblings *)
+
+(** t, x (state), a and b (initial guesses), k (constant), c;   c = k (op) 1001;  a (op) b = 1002 (op) t;  a (op) b = 1003 (op) c;
+    dx/dt = 1004 (op) a.  With k marked as external, c is no longer a computed constant: the NLA system {1002, 1003} needs it.
+    DEFECT C20-nla-sibling-dependencies (code before the repair): computeRates calls findRoot for the system right away,
+    because equation 1002, reached first, has no dependency; the equation of c (and the callback for k) are emitted nowhere
+    in initialiseVariables / computeComputedConstants / computeRates.  With the repair they come first. *)
+Definition sysS : system :=
+  [ mkComp [mkVar 0 0 INone; mkVar 1 1 IConst; mkVar 2 2 IConst; mkVar 3 3 IConst; mkVar 4 4 IConst; mkVar 5 5 INone]
+           [mkEqn 1001 (V 5) (EOp (V 4) ECn); mkEqn 1002 (EOp (V 2) (V 3)) (EOp ECn (V 0));
+            mkEqn 1003 (EOp (V 2) (V 3)) (EOp ECn (V 5)); mkEqn 1004 (EDiff 0 1) (EOp ECn (V 2))] ].
+Definition mark_k4 : list xmark := [mkXmark (XLocal (0, 4)) []].
+
+Definition ids_of (r : result) (l : list stmt) : list (option nat * qtype) :=
+  filter_map (fun p => option_map (fun e => (ae_id e, ae_type e)) (find_aeq r p)) (eq_positions l).
+
+Lemma sibling_dependencies_witness :
+  match result_of (analyse_x true sysS mark_k4) with
+  | Some r =>
+      valid_type (r_type r) = true /\
+      (* before the repair: findRoot, then the rate *)
+      ids_of r (b_rates (method_bodies r false)) = [(Some 1002, QNla); (Some 1004, QOde)] /\
+      ids_of r (b_init (method_bodies r false) ++ b_consts (method_bodies r false)) = [(None, QExternal)] /\
+      (* with the repair: the callback for k, c, findRoot, the rate *)
+      ids_of r (b_rates (method_bodies r true)) = [(None, QExternal); (Some 1001, QAlgebraic); (Some 1002, QNla); (Some 1004, QOde)] /\
+      (* c's equation is a dependency of the sibling 1003 only *)
+      map (fun e => (ae_id e, ae_type e, ae_deps e, ae_sibs e)) (filter (fun e => qtype_eqb (ae_type e) QNla) (r_eqs r)) =
+        [(Some 1002, QNla, [], [2]); (Some 1003, QNla, [0], [1])]
+  | None => False
   end.
 Proof. vm_compute. repeat split; reflexivity. Qed.
